@@ -187,6 +187,7 @@ def run_case(case):
             r = py_SimulateSingleCell(tp.copy(), Model=M, return_dataframes=False)
             return np.array(r.py_get_result(), dtype=float)
         if itf is not None:
+            itf.py_set_dt(float(tp[1] - tp[0]))      # what py_simulate_model does for the interface it builds (dt / ode rules step by it)
             if kind == "det":
                 itf.py_prep_deterministic_simulation()
                 return np.array(DeterministicSimulator().py_simulate(itf, tp.copy()).py_get_result(), dtype=float)
@@ -203,8 +204,25 @@ def run_case(case):
         return ({s: float(v) for s, v in M.get_species_dictionary().items()},
                 {p: float(v) for p, v in M.get_parameter_dictionary().items() if p not in rule_assigned_params})
 
+    pre_ifaces = []
     for oi, op in enumerate(case["ops"]):
         k = op[0]
+        if oi == len(case["ops"]) - 2 and not lineage:
+            # interfaces built on the finished structure but BEFORE the definitive values are set: value edits do not make an
+            # interface stale, so simulating through them afterwards must give the current definition's results
+            try:
+                pre_ifaces = [("plain", ModelCSimInterface(H)), ("safe", SafeModelCSimInterface(H))]
+                if case["seeds"][0] % 2 == 0:
+                    # ... and already used once (deterministically and stochastically) before the values change
+                    for _nm, _I in pre_ifaces:
+                        for _kind in ("det", "stochastic"):
+                            try:
+                                simulate(H, _kind, itf=_I)
+                            except Exception:
+                                pass
+                    C["pre_built_interfaces_used_before_value_edits"] += 1
+            except Exception as e:
+                bad("operation-raises", "building interfaces before the final value edits raised %r" % (e,))
         try:
             if k == "reaction":
                 t = specmod.rxn_tuple(sp["reactions"][op[1]])
@@ -315,4 +333,27 @@ def run_case(case):
                     bad("history-dependence:" + kind, "seed %d: %s simulation of the model reached through the history differs from the freshly built twin (species %s, row %d: %r vs %r)" % (
                         seed, kind, s, j, h1[j, ih[s]], t1[j, it[s]]))
                     break
+    if not rule_assigned_params:
+        for nm, I in pre_ifaces:
+            for kind in (["stochastic", "volume", "det"] if nm == "plain" else ["stochastic"]):
+                seed = case["seeds"][0]
+                try:
+                    brandom.py_seed_random(seed)
+                    a = simulate(H, kind, itf=I)
+                    H.set_params({k_: v_ for k_, v_ in sp["params"].items()})
+                    brandom.py_seed_random(seed)
+                    b = simulate(T, "safe" if nm == "safe" else kind)
+                    T.set_params({k_: v_ for k_, v_ in sp["params"].items()})
+                except Exception as e:
+                    bad("operation-raises", "simulating through an interface built before the final value edits raised %r" % (e,))
+                    continue
+                C["pre_built_interface_comparisons"] += 1
+                eqf = (lambda x, y: np.allclose(x, y, rtol=1e-10, atol=1e-12, equal_nan=True)) if kind == "det" else (lambda x, y: np.array_equal(x, y, equal_nan=True))
+                for s in ih:
+                    if not eqf(a[:, ih[s]], b[:, it[s]]):
+                        j = int(np.argmax(a[:, ih[s]] != b[:, it[s]]))
+                        bad("history-dependence:interface-built-before-value-edits:" + kind,
+                            "%s simulation through a %s interface built before the last set_params/set_species differs from the freshly built twin (species %s, row %d: %r vs %r)" % (
+                                kind, nm, s, j, a[j, ih[s]], b[j, it[s]]))
+                        break
     return {"viol": viol, "counters": dict(C), "nontrivial": case["nontrivial"]}
